@@ -375,6 +375,7 @@ func runCase(seed uint64, name, profile string, nops int, memq int64) lib.Case {
 	opts := nsqdlib.NewOpts(dir)
 	opts.MemQueueSize = memq
 	opts.MaxBytesPerFile = 4096
+	opts.MaxMsgSize = maxMsgSize
 	opts.QueueScanInterval = time.Hour // timeouts are driven by the harness (VerifScan)
 	opts.QueueScanRefreshInterval = time.Hour
 	opts.SyncEvery = 1
